@@ -494,7 +494,13 @@ class Envelope:
         # Handle the measurement if the state is in composite envelope product state
         if self.composite_envelope_id is not None:
             assert self.composite_envelope is not None
-            return self.composite_envelope.measure_POVM(operators, *states)
+            return self.composite_envelope.measure_POVM(
+                operators, *states, destructive=destructive
+            )
+
+        # Combine the states if both of them are measured
+        if len(states) == 2 and self.state is None:
+            self.combine()
 
         # Expand to matrix state if not alreay in it
         assert isinstance(self.expansion_level, ExpansionLevel)
@@ -503,9 +509,6 @@ class Envelope:
 
         self.reorder(*states)
         C = Config()
-
-        if len(states) == 2 and self.state is None:
-            self.combine()
 
         reshape_shape = [-1, -1]
         assert isinstance(self.fock.index, int) and isinstance(
